@@ -281,3 +281,44 @@ class Timer(object):
 
     def s(self):
         return round(time.time() - self.t0, 3)
+
+
+# ---------------------------------------------------------------------------------------
+# monitor session history prologue (used by every monitor check)
+# ---------------------------------------------------------------------------------------
+
+_PROLOGUE_N = [0]
+
+
+def history_prologue(dev):
+    """-> (device to construct the Monitor with, [command lines to run before the scenario]).
+
+    `mpu <dev>` and `reset` re-create the machine (`Monitor._reset`): a monitor started on another
+    device and switched, or reset, is *documented* to be in the same state as one started with
+    `-m <dev>` (fresh device, fresh zeroed memory, fresh address parser / assembler / disassembler of
+    the device's widths, I/O mapped at the configured addresses); breakpoints and the mem width are
+    session state that the prologue does not touch.  So every monitor scenario may be preceded by
+    such a history without changing what it must do; state that wrongly survives a switch (a parser
+    of the old width, a disassembler bound to the discarded device, ...) then shows up in the
+    ordinary comparison.  Deterministic: derived from VERIF_SEED and a per-process counter."""
+    _PROLOGUE_N[0] += 1
+    seed = int(os.environ.get('VERIF_SEED', '0') or 0)
+    h = ((_PROLOGUE_N[0] * 2654435761) ^ (seed * 40503 + 12345)) % 1000003
+    r = h % 100
+    others = [d for d in DEVNAMES if d != dev]
+    o = others[(h // 100) % len(others)]
+    if os.environ.get('VERIF_NO_PROLOGUE'):
+        return dev, []
+    f = os.environ.get('VERIF_FORCE_PROLOGUE')
+    if f:                       # replays try every variant (check.py --replay)
+        r = [0, 60, 80, 90, 97][int(f) % 5]
+        o = others[(int(f) // 5) % len(others)]
+    if r < 50:
+        return dev, []
+    if r < 75:
+        return o, ['mpu %s' % dev]
+    if r < 85:
+        return dev, ['reset']
+    if r < 95:
+        return o, ['mpu %s' % dev.lower(), 'reset']
+    return dev, ['mpu %s' % o, 'mpu %s' % dev]
